@@ -50,7 +50,7 @@ m = {
   "guard": "cargo feature `verif-hooks` of griddle",
   "enable": "the harness (harness/Cargo.toml) depends on a content-synchronised mirror of /repo (work/griddle, rsync -rc at the start of every check) with features [\"verif-hooks\", \"rayon\", \"serde\"]",
   "baseline_off_cmd": "cd /repo && cargo test --workspace --no-fail-fast --offline",
-  "source_commits": ["4e13bec"],
+  "source_commits": ["4e13bec", "a018cdc"],
   "add_only": True,
  },
  "engines": [
